@@ -96,6 +96,9 @@ fn main() {
                     let e: Vec<_> = before.iter().copied().filter(|x| x.0 < keep_below).collect(); assert_eq!(view(&m), e); }
             16 => { // iter_mut2: every entry once, in slot order, length unchanged; retain2 with a closure that ignores the entries
                     let mut n = 0usize; for (kk, vv) in m.iter_mut2() { assert_eq!((*kk, *vv), before[n]); n += 1; } assert_eq!(n, before.len()); assert_eq!(view(&m), before);
+                    // what is written through the references handed out is the entry's final value (the stub's prophecy `fin`)
+                    { let mut fin = before.clone(); let mut j = 0usize; for (_kk, vv) in m.iter_mut2() { if j % 2 == 0 { *vv = vv.wrapping_add(7); fin[j].1 = fin[j].1.wrapping_add(7); } j += 1; } assert_eq!(view(&m), fin); }
+                    let before = view(&m);
                     let flags: Vec<bool> = (0..before.len() / 2 + rng.below(before.len() as u64 + 2) as usize).map(|_| rng.below(3) != 0).collect();
                     let mut it = flags.clone().into_iter(); m.retain2(|_, _| it.next().unwrap_or(true));
                     let e: Vec<_> = before.iter().copied().enumerate().filter(|(j, _)| flags.get(*j).copied().unwrap_or(true)).map(|x| x.1).collect(); assert_eq!(view(&m), e); }
